@@ -12,6 +12,7 @@ abstract state and the safety theorems of RaftAbs/Safety.v / Fixed.v apply to it
 something legitimate the fork does, or the implementation did something the protocol forbids.
 The details of the last run (label histogram, event kinds, skipped classes) are in LAST.
 """
+import json
 import os
 import re
 
@@ -20,6 +21,7 @@ from vlib import sh, log
 
 GROUP = "RaftAbs"
 LAST = {}
+ORACLE = {}     # raftsim-style summary of the direct oracles (raftdrv.Oracle) on the directed scenarios of the last run
 
 SIZES = {
     # schedules per seed block, events per schedule, seed blocks
@@ -127,6 +129,27 @@ def run_traces(path, timeout=1200, exe=None):
     return summary, rejected, skipped
 
 
+def scenario_failures(prop, limit=20):
+    """Concrete failing inputs of property `prop` found by the direct oracles of raftdrv on the directed
+    scenarios of the last run_acceptor call, in the format of props/_raft.py collect_failures: each has a
+    replayable scenario (raftsim -mode replay) and the oracle's violations."""
+    fails = []
+    for s in ORACLE.get("schedules", []):
+        mine = [v for v in s.get("violations", []) if v["prop"] == prop]
+        if not mine:
+            continue
+        scen = json.load(open(s["scenario"])) if s.get("scenario") and os.path.exists(s["scenario"]) else None
+        v = mine[0]
+        fails.append(dict(name="%s-scenario-%s" % (v["rule"], s.get("name", s["sched"])),
+                          case=dict(scenario=scen, violations=mine, sched=s["sched"], seed=0, storage=ORACLE.get("storage"),
+                                    profile=s.get("profile"), order=ORACLE.get("order")),
+                          what="%s: %s" % (v["rule"], v["what"]),
+                          signature=("%s [%s]" % (prop, v["class"])) if v.get("class") else "%s %s" % (prop, v["rule"])))
+        if len(fails) >= limit:
+            break
+    return fails
+
+
 def run_acceptor(ctx, tier=None, storage="mem", profile=""):
     tier = tier or getattr(ctx, "tier", "quick")
     sz = SIZES.get(tier, SIZES["quick"])
@@ -143,7 +166,9 @@ def run_acceptor(ctx, tier=None, storage="mem", profile=""):
     jobs = [("-seed %d -n %d -events %d" % (ctx.seed * 1000 + b, sz["n"], sz["events"]), "traces-%d-%d.txt" % (pid, b))
             for b in range(sz["blocks"])]
     # the directed schedules of harness/cmd/raftabs/scenarios.go (always, cheap and deterministic)
-    jobs.insert(0, ("-scenario all", "scenarios-%d.txt" % pid))
+    orc_dir = os.path.join(d, "oracle-%d" % pid)
+    jobs.insert(0, ("-scenario all -oracle-out %s" % orc_dir, "scenarios-%d.txt" % pid))
+    ORACLE.clear()
     if sz.get("cp"):
         jobs.append(("-crashpoints -seed %d -n %d -events %d" % (ctx.seed * 1000 + 999, sz["cp"], sz["cp_events"]), "crashpoints-%d.txt" % pid))
     for args, fn in jobs:
@@ -155,6 +180,10 @@ def run_acceptor(ctx, tier=None, storage="mem", profile=""):
         gen_s += dt
         if rc != 0:
             raise RuntimeError("raftabs trace generation failed (%s): %s" % (args, out[-800:]))
+        if args.startswith("-scenario"):
+            sp = os.path.join(orc_dir, "summary.json")
+            if os.path.exists(sp):
+                ORACLE.update(json.load(open(sp)))
         for line in out.split("\n"):
             if line.startswith("SCENARIO-PROBLEM"):
                 rejected.append(dict(trace="scenario", seq=-1, event="scenario",
